@@ -15,6 +15,8 @@ def run(chk, tier, seed):
              ('*.txt|*.skip|*.py', WM.RV | WM.HD, 'S', None)]
     if tier == 'quick':
         cases = cases[:4]
+    # falsy values that are not None must be passed through like any other value
+    cases += [('*.txt|*.skip', WM.RV, ('RAW', 0), ('RAW', '')), ('*.txt', WM.RV, ('RAW', ()), ('RAW', False))]
     items = [(tn, sp, [c]) for tn, sp in specs.items() for c in cases]
     n = 0
     for res in pmap(walkrun.kill_points, items, chunk=1):
